@@ -152,14 +152,20 @@ class C05(Check):
         chk = self
 
         def assign(inst, ra, dec, marginSize):
+            if chk.brd.in_protocol:              # (calls the buffer-reuse monitor makes on its own are not the case's geometry)
+                return orig(inst, ra, dec, marginSize)
             chk._chunk = inst
             return orig(inst, ra, dec, marginSize)
 
         def chunkfriendsoffriends(inst, ra, dec, chunkList, linkSep):
+            if chk.brd.in_protocol:
+                return orig2(inst, ra, dec, chunkList, linkSep)
             chk._nfof += 1
             return orig2(inst, ra, dec, chunkList, linkSep)
         SG.chunks.assign = assign
         SG.chunks.chunkfriendsoffriends = chunkfriendsoffriends
+        self.brd.per_case = 1
+        self.brd.attach(self.rec, SG, 'spheregroup', every=12, partial=False)               # buffer-reuse differential (vlib/brd.py)
         self.rec.wrap(SG, 'spheregroup')
         self._combos = None
         self._latgeo = {}
